@@ -14,7 +14,7 @@ const PIPE_REAL: &[&str] = &[
     "libdeflater (compression), temp files on the real file system",
 ];
 const PIPE_STUB: &[&str] = &[
-    "destination: SimSink (in-memory Write+Seek with op log, F1/F2/F5)",
+    "destination: SimSink (in-memory Write+Seek with op log, F1/F2/F5; in a twelfth of the content-check cases it delivers only what was flushed)",
     "file being read: SimRead (Read+Seek+Reopen with F3/F4)",
     "data source in a share of the runs: SimSource (own BBIDataSource, 1-5 chromosomes in flight)",
 ];
@@ -76,7 +76,7 @@ pub fn spec(prop: &str) -> Spec {
             assumptions,
         },
         "C18" => Spec {
-            rule: "half of the cases: a FileView over a seeded window of a seeded scratch file (half of them on a handle that earlier reads/seeks left at some offset) driven through a seeded history of 1-14 read/seek operations against a clamped-cursor model; the rest: seeded grouped / non-grouped files (run lengths x line-length patterns incl. 200-3000 byte lines and multi-byte text x final newline) for index_chroms and for split_file_into_chunks_by_size with every chunk count 1..lines+2. distinct = distinct case hash; non-trivial = at least 2 operations / 2 lines. index and chunking are pure functions of the file (no schedule or fault dimension) and are counted separately".to_string(),
+            rule: "half of the cases: a FileView over a seeded window of a seeded scratch file (half of them on a handle that earlier reads/seeks left at some offset) driven through a seeded history of 1-14 read/seek operations against a clamped-cursor model; the rest: seeded grouped / non-grouped files (run lengths x line-length patterns incl. 200-3000 byte lines and multi-byte text x final newline) for index_chroms and for split_file_into_chunks_by_size with every chunk count 1..lines+2. distinct = distinct case hash; non-trivial = at least 2 operations / 2 lines. index and chunking are pure functions of the file (no schedule or fault dimension) and are counted separately; every 50th case is the statement's last clause on the whole pipeline: one input through the serial text source and through the indexed per-chromosome-view parallel source must give the same bytes".to_string(),
             real: vec!["bigtools::utils::file_view::FileView, bigtools::bed::indexer::index_chroms, bigtools::utils::split_file_into_chunks_by_size on real scratch files"],
             stub: vec!["none"],
             assumptions,
